@@ -1,6 +1,7 @@
 SPECIFICATION Spec
 CONSTANT Mode = "legacy"
 CONSTANT IntoMode = "faithful"
+CONSTANT EncMode = "faithful"
 CONSTANT Tier = "quick"
 INVARIANT LayoutRoundTrip
 INVARIANT IndexInjective
